@@ -119,6 +119,16 @@ def variant(name, **kw):
         conds = dict(HAVE_PTHREAD=False) if name == "envwrap_serial" else None
         return Variant(name, "clang", ASAN_FLAGS, ld, conds=conds,
                        extra_srcs=[os.path.join(VERIF, "engines", "env", "envwrap.c")], **kw)
+    if name.startswith("hash"):
+        bits = int(name[4:])
+        wdir = kw.pop("workdir")
+        w = os.path.join(wdir, "xxh_trunc_%d.c" % bits)
+        with open(w, "w") as f:
+            f.write("#include <stddef.h>\n#include <stdint.h>\nuint32_t vf_real_xxh32(const void *, size_t);\n"
+                    "uint32_t xxh32(const void *p, size_t n) { return %s; }\n" %
+                    ("0" if bits == 0 else "vf_real_xxh32(p, n) & ((1u << %d) - 1u)" % bits))
+        return Variant(name, "clang", ASAN_FLAGS, ["-fsanitize=address"],
+                       per_file={"lib/util/src/xxhash.c": ["-Dxxh32=vf_real_xxh32"]}, extra_srcs=[w], **kw)
     if name == "tsan":
         return Variant("tsan", "clang", ["-fsanitize=thread", "-O1", "-g"], ["-fsanitize=thread"], **kw)
     raise ValueError(name)
